@@ -270,9 +270,11 @@ def closure(case):
     seen = {L.canon(): []}
     frontier = [([], empty)]
     transitions, fails = 0, []
-    while frontier:
+    while frontier and len(seen) <= 400:
         nxt = []
         for hist, st in frontier:
+            if len(seen) > 400:  # the state space does not close (reported as closed=False): stop at once, not after the level
+                break
             for op in ops:
                 L.restore(st)
                 for b in L.apply(op):
